@@ -192,14 +192,17 @@ impl Ctx {
 impl Ctx {
     /// Large collection-rooted documents at the length-prefix boundaries of MessagePack (fix/16/32-bit
     /// headers): xt's output is fed back from a slice (with hook events) and from a reader (answer only).
-    fn big_self(&mut self, entries: usize, as_map: bool) {
+    fn big_self(&mut self, entries: usize, as_map: bool, multibyte: bool) {
         let mut src = String::new();
         src.push(if as_map { '{' } else { '[' });
         for i in 0..entries {
             if i > 0 {
                 src.push(',');
             }
-            if as_map {
+            if multibyte {
+                // non-ASCII text everywhere: some character straddles every refill boundary of the parsers
+                src.push_str(&if as_map { format!("\"k{i}\":\"\u{20ac}\u{1f600}\u{e9}{i}\"") } else { format!("\"\u{20ac}\u{1f600}\u{e9}{i}\"") });
+            } else if as_map {
                 src.push_str(&format!("\"k{i}\":{i}"));
             } else {
                 src.push_str(&i.to_string());
@@ -215,7 +218,7 @@ impl Ctx {
             let id = format!("{:016x}:{}", fnv(&bytes), bytes.len());
             let run = detect_once(&bytes, None, None);
             self.rec(json!({"ev": "input", "id": id, "n": bytes.len(), "fault": -1, "mode": "slice", "translates": true,
-                            "label": format!("xt-output/{f}/{entries}-entries"), "hex": "", "sched": ""}));
+                            "label": format!("xt-output/{f}/{entries}-entries{}", if multibyte { "-multibyte" } else { "" }), "hex": "", "sched": ""}));
             for r in &run.records {
                 self.rec(r.clone());
             }
@@ -230,8 +233,49 @@ impl Ctx {
             let same = a.0 == b.0 && a.1 == b.1 && reader_answer == run.answer;
             self.rec(json!({"ev": "self", "id": id, "wrote": f, "collection": true, "detected": run.answer, "same_out": same, "sidecond": true, "text": ""}));
             self.sum.eval();
-            self.sum.nontrivial(format!("big/{f}/{entries}/{as_map}"));
+            self.sum.nontrivial(format!("big/{f}/{entries}/{as_map}/{multibyte}"));
         }
+    }
+}
+
+impl Ctx {
+    /// A large TOML document of exactly `size` bytes (which no other trial accepts): detected from a slice
+    /// (with hook events) and from a reader; the answers must agree and be TOML (C10 "self" rule; the
+    /// reader's look-ahead is documented to be 2 MiB, so every size below that is in scope).
+    fn big_toml(&mut self, size: usize) {
+        let mut text = String::from("title = \"a: b\"\n");
+        let mut i = 0;
+        while text.len() + 40 < size {
+            text.push_str(&format!("k{i} = \"value number {i}\"\n"));
+            i += 1;
+        }
+        let fill = size - text.len() - 7;
+        text.push_str(&format!("z = \"{}\"\n", "f".repeat(fill)));
+        assert_eq!(text.len(), size);
+        let bytes = Rc::new(text.into_bytes());
+        let id = format!("{:016x}:{}", fnv(&bytes), bytes.len());
+        let run = detect_once(&bytes, None, None);
+        self.rec(json!({"ev": "input", "id": id, "n": bytes.len(), "fault": -1, "mode": "slice", "translates": true,
+                        "label": format!("big-toml/{size}"), "hex": "", "sched": ""}));
+        for r in &run.records {
+            self.rec(r.clone());
+        }
+        self.rec(json!({"ev": "result", "res": run.answer, "srcerr": run.srcerr}));
+        let mut same = true;
+        for sc in [Sched::Fixed(65536), Sched::All] {
+            if size >= 2 * 1024 * 1024 {
+                break; // beyond the documented look-ahead of reader detection: only the slice answer is in scope
+            }
+            let reader_answer = match catch(|| xt::verif::detect_reader(SchedReader::new(bytes.clone(), sc, new_log()))) {
+                Ok(Ok(Some(ff))) => fmt_name(ff).to_owned(),
+                Ok(Ok(None)) => "none".to_owned(),
+                _ => "error".to_owned(),
+            };
+            same &= reader_answer == run.answer;
+        }
+        self.rec(json!({"ev": "self", "id": id, "wrote": "toml", "collection": true, "detected": run.answer, "same_out": same, "sidecond": true, "text": ""}));
+        self.sum.eval();
+        self.sum.nontrivial(format!("big-toml/{size}"));
     }
 }
 
@@ -243,6 +287,15 @@ pub fn record(out_path: &str, count: u64) {
         ("truncated-msgpack-array", vec![0x91]),
         ("truncated-msgpack-map", vec![0x82, 0xa1, b'a', 0x01]),
         ("msgpack-array16-truncated", vec![0xdc, 0x00, 0x03, 0x01]),
+        // inputs that end INSIDE a MessagePack datum (string payload, integer payload, length field)
+        ("msgpack-ends-in-string-payload", vec![0x92, 0xa5, b'h', b'e']),
+        ("msgpack-ends-in-u16-payload", vec![0x92, 0xcd, 0x01]),
+        ("msgpack-ends-in-length-field", vec![0xdc, 0x00]),
+        ("msgpack-ends-in-str8-length", vec![0x91, 0xd9]),
+        ("msgpack-ends-in-bin-payload", vec![0x81, 0xa1, b'k', 0xc4, 0x05, 0x01]),
+        ("msgpack-ends-in-f64-payload", vec![0x91, 0xcb, 0x40, 0x09]),
+        ("yaml-U+0710-then-text", "\u{710}: caf\u{e9}\n".as_bytes().to_vec()),
+        ("yaml-U+0750-only", "\u{750}:".as_bytes().to_vec()),
         ("yaml-starting-U+0700", "\u{700}: 1\n".as_bytes().to_vec()),
         ("yaml-starting-U+07FF", "\u{7ff}k: [1, 2]\n".as_bytes().to_vec()),
         ("json-and-yaml", b"{\"a\": [1, 2]}".to_vec()),
@@ -262,8 +315,16 @@ pub fn record(out_path: &str, count: u64) {
         cx.input(b, label, &mut rng0, None);
     }
     for entries in [15usize, 16, 65535, 65536] {
-        cx.big_self(entries, true);
-        cx.big_self(entries, false);
+        cx.big_self(entries, true, false);
+        cx.big_self(entries, false, false);
+    }
+    for entries in [3000usize, 7001] {
+        cx.big_self(entries, true, true);
+        cx.big_self(entries, false, true);
+    }
+    // TOML documents around the 1 MiB mark and just below the 2 MiB look-ahead of reader detection
+    for size in [1_048_575usize, 1_048_576, 1_500_000, 2_097_151, 2_097_152, 3_000_000] {
+        cx.big_toml(size);
     }
     for i in 0..count {
         let mut rng = Rng::derive(seed, "detect", i);
